@@ -491,7 +491,12 @@ def check_get_concentration(c, solute, units, result, exc):
     M.count('OBS.get_concentration')
     exp = R.concentration(c.contents, solute, num, den)
     if exc is not None:
-        if math.isfinite(exp):
+        if math.isfinite(exp) and mult < 0.5 * cf.q and isinstance(exc, ZeroDivisionError):
+            # recorded finding KF32: the unit itself is parsed as the concentration '1 <unit>' and rounded to the
+            # concentration quantum; below 1e-10 in base units (ng/kg, nmol/kL) the multiplier becomes 0
+            M.violate(['C10'], 'OBS', 'C10:get_concentration_unit_multiplier_rounds_to_zero:ZeroDivisionError',
+                      {'units': units, 'multiplier_to_base_units': mult, 'exc': repr(exc)[:200]})
+        elif math.isfinite(exp):
             M.violate(['C10'], 'OBS', f'C10:get_concentration_raised:{type(exc).__name__}',
                       {'units': units, 'exc': repr(exc)[:200], 'container': F.snap_contents(c)})
         return
